@@ -29,6 +29,7 @@ SETS = {
     "two-ed": [("Ed25519", 0, None), ("Ed25519", 1, "ed-b")],
     "x-and-rsa": [("X25519", 0, "x-a"), ("X25519", 1, None), ("rsa", 1, "r")],
     "long-kids": [("oct32", 0, "k" * 257), ("P-256", 0, "https://keys.example.com/" + "tenant-0123456789/" * 60 + "current"), ("oct32", 1, "short")],
+    "kids-that-look-like-base64": [("oct32", 0, "a2V5LTA="), ("P-256", 0, "YWJj=="), ("oct32", 1, "YWJj"), ("P-256", 1, "YWJj=")],
     "unicode-kids": [("oct32", 0, "schl\u00fcssel-1"), ("P-256", 0, "\u9375"), ("oct32", 1, "plain-after-unicode")],
 }
 SIG_ALG = {"oct": "HS256", "EC": "ES256", "RSA": "RS256", "OKP": "EdDSA"}
@@ -82,11 +83,19 @@ def h_consume(ctx):
     kk, kv = ctx.choose("token_kid", kid_opts)
     path = ctx.choose("path", ["compact", "flattened", "general"])
     pos = ctx.choose("kid_position", ["protected"] + (["unprotected"] if path != "compact" else []) + (["recipient"] if family == "jwe" and path != "compact" else []))
-    as_callable = ctx.choose("set_given", ["directly", "callable"]) == "callable"
+    given = ctx.choose("set_given", ["directly", "callable", "callable that reads the token before it answers"])
+    as_callable = given != "directly"
     native = ctx.choose("member_form", ["dict", "native+kid-parameter"]) != "dict"
     m = ms[i]
     kid = ms[kv]["kid"] if kk == "member" else kv
     arg, ks = build_set(sname, private=True, as_callable=as_callable, native=native)
+    if given.startswith("callable that reads"):
+        # the guide's multi-tenant recipe: the callable looks at the header - and, for a compact JWS, at the (still unverified) claims - to pick the key set
+        def arg(obj, _ks=ks):
+            obj.headers()
+            if hasattr(obj, "payload"):
+                json.loads(obj.payload)
+            return _ks
     if family == "jws":
         alg = SIG_ALG[m["jwk"]["kty"]]
         prot, hdr = {"alg": alg}, None
@@ -129,7 +138,7 @@ def h_consume(ctx):
         got = r.value[0] if r.ok else None
         want = b"secret"
     vs = []
-    what = f"{family} {path} set={sname} token made with member {i} ({m['kind']}), kid {kk}={kid!r} in {pos}, set given {'via callable' if as_callable else 'directly'}"
+    what = f"{family} {path} set={sname} token made with member {i} ({m['kind']}), kid {kk}={kid!r} in {pos}, set given {given if as_callable else 'directly'}"
     if kk == "member":
         if kv == i:
             if not r.ok or got != want:
@@ -147,7 +156,7 @@ def h_consume(ctx):
                 vs.append(viol(f"{family} consume of a token without kid fails against a single-key set ({path})", f"{what}: {r.exc!r}"))
         elif r.ok:
             vs.append(viol(f"{family} consume of a token without kid succeeds against a set of {len(ms)} keys ({path})", what))
-    return Outcome(f"{kk}:{'ok' if r.ok else 'rej:' + r.etype}", vs, nontrivial=(sname, family, i, kk, kv, path, pos, as_callable, native))
+    return Outcome(f"{kk}:{'ok' if r.ok else 'rej:' + r.etype}", vs, nontrivial=(sname, family, i, kk, kv, path, pos, given, native))
 
 
 def h_consume_multi(ctx):
